@@ -68,21 +68,40 @@ int c02fmt_snprintf(char *s, size_t n, const char *fmt, ...);
 
 static vbi_decoder VBI;
 static vbi_page PG;
-/* exact-size cache_page of a LOP without enhancement (cache_page_size()): a typed replica of the head of cache_page that ends
-   after data.lop, so that reading past data.lop is a bounds failure (CBMC) / global redzone hit (ASan) */
-struct __attribute__((packed)) c02_lop_page {       /* packed: no tail padding, sizeof == cache_page_size() of a plain LOP */
+/* The page object: a typed replica of cache_page whose union part is the plain LOP (cache_page_size() bytes) followed by a
+   guard area up to sizeof(cache_page).  A cached LOP is allocated with cache_page_size() bytes only, so the formatter must not
+   touch the guard: natively it is ASan-poisoned (any access aborts), under CBMC its content is nondeterministic (a read that
+   influenced the result would break an assertion; the counterexample then replays into the poisoned area).
+   raw[26][40] is declared flat because vbi_format_vt_page() indexes it as raw[0][0..999]. */
+#define CP_LOP_SIZE (offsetof(cache_page, data) + sizeof(((cache_page *) 0)->data.lop))
+struct c02_guard { uint8_t b[sizeof(cache_page) - CP_LOP_SIZE]; };
+struct __attribute__((packed)) c02_lop_page {
   struct node hash_node, pri_node; cache_network *network; unsigned int ref_count; cache_priority priority;
   enum ttx_page_function function; vbi_pgno pgno; vbi_subno subno; int national; unsigned int flags;
   unsigned int lop_packets, x26_designations, x27_designations, x28_designations;
   uint32_t pad_before_union;
-  /* struct ttx_lop, with raw[26][40] declared flat: vbi_format_vt_page() indexes it as raw[0][0..999] */
-  uint8_t raw_flat[26 * 40]; struct ttx_page_link link[6 * 6]; vbi_bool have_flof;
+  uint8_t raw_flat[26 * 40]; struct ttx_page_link link[6 * 6]; vbi_bool have_flof;      /* struct ttx_lop */
+  struct c02_guard guard;
 };
-#define CP_LOP_SIZE (offsetof(cache_page, data) + sizeof(((cache_page *) 0)->data.lop))
-typedef char c02_layout_check[(offsetof(struct c02_lop_page, raw_flat) == offsetof(cache_page, data.lop.raw) && sizeof(struct c02_lop_page) == CP_LOP_SIZE
+typedef char c02_layout_check[(offsetof(struct c02_lop_page, raw_flat) == offsetof(cache_page, data.lop.raw) && offsetof(struct c02_lop_page, guard) == CP_LOP_SIZE
+  && sizeof(struct c02_lop_page) == sizeof(cache_page)
   && offsetof(struct c02_lop_page, function) == offsetof(cache_page, function) && offsetof(struct c02_lop_page, national) == offsetof(cache_page, national)
   && offsetof(struct c02_lop_page, flags) == offsetof(cache_page, flags) && offsetof(struct c02_lop_page, x28_designations) == offsetof(cache_page, x28_designations)) ? 1 : -1];
 static _Alignas(8) struct c02_lop_page CPMEM;
+#ifdef VERIF_CBMC
+struct c02_guard nondet_c02_guard(void);
+#define GUARD_ARM() do { CPMEM.guard = nondet_c02_guard(); } while (0)
+#else
+#if defined(__has_feature)
+#if __has_feature(address_sanitizer)
+#include <sanitizer/asan_interface.h>
+#define GUARD_ARM() ASAN_POISON_MEMORY_REGION(&CPMEM.guard, sizeof CPMEM.guard)
+#endif
+#endif
+#ifndef GUARD_ARM
+#define GUARD_ARM() do { } while (0)
+#endif
+#endif
 
 static const vbi_rgba ref_default_cmap8[8] = { 0xFF000000u, 0xFF0000FFu, 0xFF00FF00u, 0xFF00FFFFu, 0xFFFF0000u, 0xFFFF00FFu, 0xFFFFFF00u, 0xFFFFFFFFu };
 
@@ -101,17 +120,13 @@ static void setup_decoder(unsigned code0, unsigned code1)
 
 static cache_page *setup_page(unsigned national, unsigned flags)
 {
-#ifdef VERIF_CBMC
   cache_page *cp = (cache_page *) &CPMEM;
-#else
-  static void *volatile opaque = &CPMEM;      /* keeps UBSan's static object-size check out of the way; ASan redzones still guard CPMEM */
-  cache_page *cp = (cache_page *) opaque;
-#endif
   unsigned r, c;
   cp->function = PAGE_FUNCTION_LOP;
   cp->pgno = 0x100; cp->subno = 0;
   cp->national = (int) national;
   cp->flags = flags;
+  GUARD_ARM();
   cp->lop_packets = 7; cp->x26_designations = 0; cp->x27_designations = 0; cp->x28_designations = 0;
   for (r = 0; r < 26; r++) for (c = 0; c < 40; c++) CPMEM.raw_flat[r * 40 + c] = (uint8_t) ref_par8((r == 2) ? 0x58 /* X */ : 0x20);
   return cp;
